@@ -780,7 +780,6 @@ func valueDerivesFrom(v ssa.Value, src ssa.Value, d int) bool {
 	return false
 }
 
-
 // c08SharedErrorImmutable: the protocol error values of the RPC layer (rpccore.Err…, package-level *jsonrpc.Error) are shared
 // by every handler of every API version. A handler that adapts an error for its own reply must build a new value
 // (CloneWithData, a literal): a store through a *jsonrpc.Error it did not create rewrites the shared value for the whole
@@ -826,7 +825,6 @@ func c08SharedErrorImmutable(c *Ctx) {
 		c.ok("shared-error-immutable", "rpc, jsonrpc", "", fmt.Sprintf("%d stores to jsonrpc.Error fields, all on values created in the storing function", n))
 	}
 }
-
 
 // c08PrefilledSliceComplete: a response list that is allocated with its final LENGTH (make([]T, n)) and filled by a running
 // index must be filled on every iteration: when the store is skipped for some entries (a filter), the untouched tail keeps
